@@ -11,6 +11,8 @@
      - `select`: the environment answers with the index of an alternative it considers ready (`AnsSel i v`, v = the
        received value for a receive) or with `AnsDefault`; the machine does not know what "ready" means;
      - `close`, `Ticker.Stop` and `time.Sleep` are requests too (the environment sees them), answered `AnsOk`;
+     - `time.Now()` is the request RqNow, answered `AnsTime t` (t in nanoseconds; time.Time values are Z, `time.Since(x)` is
+       a `Now` followed by the Duration subtraction of part 1);
      - a receive is answered `AnsRecv (Some v)` or `AnsRecv None` (closed channel: the continuation sees None);
      - `defer` takes a statement list (`defer close(c)` = `Defer [Close c]`, `defer f()` = `Defer [Call f]`); the operand
        of a deferred close is evaluated when it runs, not at the defer statement (the generator only accepts operands that
@@ -38,6 +40,8 @@ Inductive stmt : Type :=
 | Send (ch : S -> C) (v : S -> V)
 | Select (alts : list (comm * list stmt)) (dflt : option (list stmt))
 | Sleep (d : S -> Z)
+| Now (k : S -> Z -> S)                               (* `t := time.Now()`: the clock, in nanoseconds *)
+| NewTicker (d : S -> Z)                              (* `time.NewTicker(d)` (one ticker per goroutine: channel CTick) *)
 | Close (ch : S -> C)
 | TickerStop
 | Call (fn : F)                                       (* parameters and results travel in fields of S *)
@@ -55,10 +59,12 @@ Inductive request : Type :=
 | RqRecv (c : C) | RqSend (c : C) (v : V)
 | RqSelect (alts : list (C * option V)) (has_default : bool)      (* (c, None) = receive from c, (c, Some v) = send v *)
 | RqSleep (d : Z) | RqClose (c : C) | RqTickerStop
+| RqNow                                                            (* the current time is asked for *)
+| RqNewTicker (d : Z)
 | RqDone.                                                          (* the goroutine has ended *)
 
 Inductive answer : Type :=
-| AnsRecv (v : option V) | AnsOk | AnsSel (i : nat) (v : option V) | AnsDefault.
+| AnsRecv (v : option V) | AnsOk | AnsSel (i : nat) (v : option V) | AnsDefault | AnsTime (t : Z).
 
 (* break (keep = false) / continue (keep = true): up to the nearest loop *)
 Fixpoint unwind_loop (k : list frame) (keep : bool) : list frame :=
@@ -111,6 +117,8 @@ Definition step1 (cf : config) : outcome :=
       | Send ch v => Block (RqSend (ch s) (v s))
       | Select alts d => Block (RqSelect (map (comm_request s) alts) (match d with Some _ => true | None => false end))
       | Sleep d => Block (RqSleep (d s))
+      | Now _ => Block RqNow
+      | NewTicker d => Block (RqNewTicker (d s))
       | Close ch => Block (RqClose (ch s))
       | TickerStop => Block RqTickerStop
       end
@@ -136,6 +144,8 @@ Definition resume (cf : config) (a : answer) : config :=
       | Recv _ kk, AnsRecv v => (kk s v, KSeq l :: r)
       | Send _ _, AnsOk => (s, KSeq l :: r)
       | Sleep _, AnsOk => (s, KSeq l :: r)
+      | Now kk, AnsTime t => (kk s t, KSeq l :: r)
+      | NewTicker _, AnsOk => (s, KSeq l :: r)
       | Close _, AnsOk => (s, KSeq l :: r)
       | TickerStop, AnsOk => (s, KSeq l :: r)
       | Select alts _, AnsSel n v =>
@@ -193,6 +203,27 @@ Proof.
   induction fuel as [|f IH]; intros cf cf' rq H; [discriminate|]. simpl in H.
   destruct (step1 cf) eqn:E; [now apply IH in H|]. now injection H as <- <-.
 Qed.
+
+(* ---- internal steps, relationally, and moves (internal steps plus requests with given answers) *)
+Inductive reaches : config -> config -> Prop :=
+| r_refl c : reaches c c
+| r_step c c' c'' : step1 c = Step c' -> reaches c' c'' -> reaches c c''.
+Lemma reaches_trans a b c : reaches a b -> reaches b c -> reaches a c.
+Proof. induction 1; intros; [assumption|]. eapply r_step; eauto. Qed.
+(* internal steps followed by a blocking point: that is what run_to_request returns, with any sufficient fuel *)
+Lemma reaches_run a b rq : reaches a b -> step1 b = Block rq ->
+  exists n, forall fuel, n <= fuel -> run_to_request fuel a = Some (b, rq).
+Proof.
+  induction 1 as [c|c c' c'' E _ IH]; intros B.
+  - exists 1. intros [|f] L; [lia|]. simpl. now rewrite B.
+  - destruct (IH B) as [n Hn]. exists (Datatypes.S n). intros [|f] L; [lia|]. simpl. rewrite E. apply Hn. lia.
+Qed.
+(* the program goes from c to c': internal steps, and for every answer in the list a request that gets this answer *)
+Fixpoint moves (l : list answer) (c c' : config) : Prop :=
+  match l with
+  | [] => reaches c c'
+  | a :: r => exists cb rq, reaches c cb /\ step1 cb = Block rq /\ moves r (resume cb a) c'
+  end.
 End Lang.
 
 Arguments Atom {S V C F} f.
@@ -202,6 +233,8 @@ Arguments Recv {S V C F} ch k.
 Arguments Send {S V C F} ch v.
 Arguments Select {S V C F} alts dflt.
 Arguments Sleep {S V C F} d.
+Arguments Now {S V C F} k.
+Arguments NewTicker {S V C F} d.
 Arguments Close {S V C F} ch.
 Arguments TickerStop {S V C F}.
 Arguments Call {S V C F} fn.
@@ -220,11 +253,14 @@ Arguments RqSelect {V C} alts has_default.
 Arguments RqSleep {V C} d.
 Arguments RqClose {V C} c.
 Arguments RqTickerStop {V C}.
+Arguments RqNow {V C}.
+Arguments RqNewTicker {V C} d.
 Arguments RqDone {V C}.
 Arguments AnsRecv {V} v.
 Arguments AnsOk {V}.
 Arguments AnsSel {V} i v.
 Arguments AnsDefault {V}.
+Arguments AnsTime {V} t.
 Arguments Step {S V C F} c.
 Arguments Block {S V C F} rq.
 Arguments step1 {S V C F} table cf.
@@ -236,3 +272,7 @@ Arguments unwind_loop {S V C F} k keep.
 Arguments unwind_call {S V C F} k.
 Arguments add_defer {S V C F} d k.
 Arguments comm_request {S V C F} s a.
+Arguments reaches {S V C F} table c c'.
+Arguments r_refl {S V C F} table c.
+Arguments r_step {S V C F} table c c' c''.
+Arguments moves {S V C F} table l c c'.
